@@ -50,7 +50,7 @@ func c10Records(c *mon.Ctx, r *mon.Rand) {
 	if mode == "cached" || mode == "both" {
 		opts.CachedReporter = crec
 	}
-	root, _ := tally.VerifNewRootScope(opts, 0, uint(r.Range(1, 4)))
+	root, _ := vNewRoot(opts, 0, uint(r.Range(0, 4)))
 	nsc := r.Range(1, 3)
 	type tsc struct {
 		id ident
@@ -149,7 +149,7 @@ func logOf(x interface {
 
 func c10Stopwatch(c *mon.Ctx, r *mon.Rand) {
 	prec := mon.NewPlainRec(true)
-	root, _ := tally.VerifNewRootScope(tally.ScopeOptions{Reporter: prec, OmitCardinalityMetrics: true}, 0, 1)
+	root, _ := vNewRoot(tally.ScopeOptions{Reporter: prec, OmitCardinalityMetrics: true}, 0, 1)
 	c.Eval(1)
 	useHist := r.Bool()
 	sleep := time.Duration(r.Range(0, 3000)) * time.Microsecond
@@ -214,7 +214,7 @@ func c10Exec(c *mon.Ctx, r *mon.Rand, withSleep bool) {
 	} else {
 		opts.Reporter = prec
 	}
-	root, _ := tally.VerifNewRootScope(opts, 0, uint(r.Range(1, 3)))
+	root, _ := vNewRoot(opts, 0, uint(r.Range(0, 3)))
 	var sc tally.Scope = root
 	if r.Bool() {
 		sc = root.SubScope("sub")
@@ -327,7 +327,7 @@ func c10TestScope(c *mon.Ctx, r *mon.Rand) {
 	pool := newStrPool(r, true, false, false)
 	rc := pool.root(r)
 	rc.Sep = "."
-	ts := tally.VerifNewTestScope(rc.Prefix, copyTagMap(rc.Tags), uint(r.Range(1, 4)))
+	ts := vNewTest(rc.Prefix, copyTagMap(rc.Tags), uint(r.Range(0, 4)))
 	type tsc struct {
 		id ident
 		sc tally.Scope
@@ -418,7 +418,7 @@ func c10Concurrent(c *mon.Ctx, r *mon.Rand) {
 	var root tally.Scope
 	var ts tally.TestScope
 	if mode == "test" {
-		ts = tally.VerifNewTestScope("p", map[string]string{"k": "v"}, uint(r.Range(1, 4)))
+		ts = vNewTest("p", map[string]string{"k": "v"}, uint(r.Range(0, 4)))
 		root = ts
 	} else {
 		opts := tally.ScopeOptions{Prefix: "p", Tags: map[string]string{"k": "v"}, OmitCardinalityMetrics: true}
@@ -428,7 +428,7 @@ func c10Concurrent(c *mon.Ctx, r *mon.Rand) {
 		if mode == "cached" || mode == "both" {
 			opts.CachedReporter = crec
 		}
-		root, _ = tally.VerifNewRootScope(opts, 0, uint(r.Range(1, 4)))
+		root, _ = vNewRoot(opts, 0, uint(r.Range(0, 4)))
 	}
 	sc := root
 	scName, scTags := "p", map[string]string{"k": "v"}
